@@ -1,5 +1,6 @@
 SPECIFICATION Spec
 CONSTANTS MaxN = 2
           WrapperConsumes = FALSE
+          ReleaseWakesWaiter = TRUE
 INVARIANT Export
 CHECK_DEADLOCK FALSE
